@@ -34,3 +34,69 @@ def c13_roundtrip(data, version_number, type, secondary_header_flag, apid, seque
         "header_values"
     assert len(pkt) == 6 + len(data), "total_length"
     return pkt
+
+
+# ---- C20 (bounded only: the CPython object model is outside the prover's reach, E10) --------------------------------
+def _same(a, b):
+    """same built-in value, NaN-aware and sign-of-zero-aware"""
+    return type(a) is type(b) and repr(a) == repr(b)
+
+
+def c20_value_behaviour(cls, value, raw_value, others):
+    import copy
+    import pickle
+    base = cls.__mro__[2]
+    v = cls(value, raw_value)
+    b = base(value)
+    assert isinstance(v, base), "isinstance_builtin"
+    assert _same(base(v), b), "builtin_value"
+    if b == b:
+        assert v == b and b == v and hash(v) == hash(b), "eq_hash"
+    else:
+        assert v != v, "nan_ne"
+    for o in others:
+        for op in ('__lt__', '__le__', '__gt__', '__ge__', '__eq__', '__ne__'):
+            assert getattr(v, op)(o) == getattr(b, op)(o), "ordering"
+        try:
+            expected = b + o
+        except TypeError:
+            expected = TypeError
+        try:
+            got = v + o
+        except TypeError:
+            got = TypeError
+        assert expected is got or _same(got, expected), "arithmetic"
+    if cls.__name__ != 'BoolParameter':
+        assert format(v) == format(b) and str(v) == str(b) and repr(v) == repr(b), "format"
+    else:
+        assert repr(v) == repr(bool(b)), "bool_repr"
+    expect_raw = value if raw_value is None else raw_value
+    assert _same(v.raw_value, expect_raw) or (v.raw_value is expect_raw), "raw_value"
+    for name, f in (('copy', copy.copy), ('deepcopy', copy.deepcopy),
+                    ('pickle', lambda x: pickle.loads(pickle.dumps(x)))):
+        w = f(v)
+        assert type(w) is type(v), name + "_type"
+        assert _same(base(w), base(v)), name + "_value"
+        assert _same(w.raw_value, v.raw_value), name + "_raw_value"
+    return v
+
+
+def c20_packet_copy(items, raw, pos):
+    import copy
+    import pickle
+    from space_packet_parser.packets import CCSDSPacket
+    p = CCSDSPacket(raw_data=raw)
+    p.raw_data.pos = pos
+    for k, val in items:
+        p[k] = val
+    for name, f in (('copy', copy.copy), ('deepcopy', copy.deepcopy),
+                    ('pickle', lambda x: pickle.loads(pickle.dumps(x)))):
+        q = f(p)
+        assert type(q) is CCSDSPacket, name + "_type"
+        assert list(q.keys()) == list(p.keys()), name + "_order"
+        for k in p:
+            assert type(q[k]) is type(p[k]) and _same(q[k].raw_value, p[k].raw_value), name + "_items"
+        assert bytes(q.raw_data) == bytes(p.raw_data) and type(q.raw_data) is type(p.raw_data), name + "_raw_bytes"
+        assert q.raw_data.pos == pos, name + "_cursor"
+        assert q.header == p.header and q.user_data == p.user_data, name + "_views"
+    return p
